@@ -369,7 +369,7 @@ unsafe fn send_copy<S: Service>(
     unsafe {
         let mut request = match client.loan_custom_payload(number_of_elements) {
             Ok(request) => request,
-            Err(e) => return Err(e.into_c_int()),
+            Err(e) => return Err(iceoryx2::port::client::RequestSendError::from(e).into_c_int()),
         };
 
         let data_len = size_of_element * number_of_elements;
